@@ -392,6 +392,8 @@ package anthropic
 //@   property C12
 //@   safety
 //@   requires t != nil && t.logger != nil && t.inspector != nil && r != nil && r.Body != nil
+// the client's body is decoded through a size-capped reader only (max_message_size)
+//@   at call NewDecoder 1 assert ghost(limitedBody).limited
 //@   modifies *
 //@   at call convertMessages 1 assume forall q int :: 0 <= q && q < len(anthropicReq.Messages) ==> (anthropicReq.Messages[q].Role == "user" || anthropicReq.Messages[q].Role == "assistant")
 //@   at return 6 assert len(anthropicReq.StopSequences) > 0 ==> has(openaiReq, "stop") && typeis(openaiReq["stop"], "[]string") && asType(openaiReq["stop"], "[]string") == anthropicReq.StopSequences
